@@ -9,8 +9,8 @@
 #include "c10_ossl_peer.h"
 using namespace vf; using namespace mxh; using namespace c10;
 
-enum { D_NONE, D_INT_OK, D_EXPIRED, D_NOTYET, D_WRONGNAME, D_UNKNOWNCA, D_BADSIG, D_INT_NOTCA, D_INT_NOSIGN, D_DEPTH, D_EXPIRED_AND_UNKNOWNCA, D_EXPIRED_LEAF_UNANCHORED_CHAIN, D_TBS_ALTERED, D_REVOKED, D_CRL_OTHER_SERIALS, D_EKU_NOT_TLS, D_N };
-static const char *dname[] = { "none", "valid-intermediate", "expired", "not-yet-valid", "wrong-name", "unknown-ca", "bad-signature", "intermediate-not-ca", "intermediate-without-keyCertSign", "max-verify-depth-exceeded", "expired+unknown-ca", "expired-leaf-in-unanchored-chain", "tbs-altered-under-genuine-signature", "revoked-by-authenticated-crl", "crl-loaded-but-not-listing-the-peer", "critical-extended-key-usage-without-tls-usage" };
+enum { D_NONE, D_INT_OK, D_EXPIRED, D_NOTYET, D_WRONGNAME, D_UNKNOWNCA, D_BADSIG, D_INT_NOTCA, D_INT_NOSIGN, D_DEPTH, D_EXPIRED_AND_UNKNOWNCA, D_EXPIRED_LEAF_UNANCHORED_CHAIN, D_TBS_ALTERED, D_REVOKED, D_CRL_OTHER_SERIALS, D_EKU_NOT_TLS, D_NO_TRUST_ANCHORS, D_SELF_SIGNED_NO_ANCHORS, D_EXPIRED_SELF_SIGNED_NO_ANCHORS, D_N };
+static const char *dname[] = { "none", "valid-intermediate", "expired", "not-yet-valid", "wrong-name", "unknown-ca", "bad-signature", "intermediate-not-ca", "intermediate-without-keyCertSign", "max-verify-depth-exceeded", "expired+unknown-ca", "expired-leaf-in-unanchored-chain", "tbs-altered-under-genuine-signature", "revoked-by-authenticated-crl", "crl-loaded-but-not-listing-the-peer", "critical-extended-key-usage-without-tls-usage", "verifier-has-no-trust-anchors", "self-signed-peer+verifier-has-no-trust-anchors", "expired-self-signed-peer+verifier-has-no-trust-anchors" };
 enum { CB_NONE, CB_STRICT, CB_PERMISSIVE, CB_ANON, CB_PICKY_EXPIRED, CB_N };
 static const char *cbname[] = { "no-callback", "strict", "permissive", "anon", "picky(expired-only)" };
 
@@ -38,16 +38,20 @@ static void prop(Tape &t, Ctx &c) {
     bool client_verifies = t.chance(2, 3);
     int cb = (int) t.below(CB_N); if (!client_verifies && cb == CB_NONE) cb = CB_STRICT;    // a MatrixSSL server only requests a client certificate when a callback is registered
     int defect = (int) t.below(D_N); if (!client_verifies && defect == D_WRONGNAME) defect = D_UNKNOWNCA;
+    if (!client_verifies && (defect == D_NO_TRUST_ANCHORS || defect == D_SELF_SIGNED_NO_ANCHORS || defect == D_EXPIRED_SELF_SIGNED_NO_ANCHORS)) defect = D_UNKNOWNCA;   // a server without CA list cannot ask for a certificate
     uint32_t es = t.u16();
     // RSASSA-PSS signed leaf (RSA key, ca_rsa issuer): only the two defects that exist for it (gen4.sh)
     bool pss = rsa && t.chance(1, 3); const char *CT = pss ? "pss" : T;
     // a verifying client may or may not ask for a name check (expectedName NULL): without one a wrong name is not a defect
     bool name_check = !client_verifies || !t.chance(1, 3);
+    if (pss && (defect == D_NO_TRUST_ANCHORS || defect == D_SELF_SIGNED_NO_ANCHORS || defect == D_EXPIRED_SELF_SIGNED_NO_ANCHORS)) pss = false, CT = T;
     if (pss && defect != D_NONE && defect != D_TBS_ALTERED && defect != D_REVOKED && defect != D_CRL_OTHER_SERIALS) defect = (defect & 1) ? D_TBS_ALTERED : D_NONE;
     std::string D = verif_dir() + "/props/C04/pki/", P = verif_dir() + "/pki/";
     std::string pc, pk;   // presented credential
     switch (defect) {
-    case D_NONE: case D_REVOKED: case D_CRL_OTHER_SERIALS: pc = D + "good_" + CT + ".pem"; pk = D + "good_" + CT + ".key"; break;
+    case D_EXPIRED_SELF_SIGNED_NO_ANCHORS: pc = D + "selfsigned_expired_" + T + ".pem"; pk = D + "selfsigned_" + T + ".key"; break;   // two defects: nothing anchors it, and it has expired
+    case D_SELF_SIGNED_NO_ANCHORS: pc = D + "selfsigned_" + T + ".pem"; pk = D + "selfsigned_" + T + ".key"; break;   // self-signed end-entity certificate for "localhost"
+    case D_NONE: case D_REVOKED: case D_CRL_OTHER_SERIALS: case D_NO_TRUST_ANCHORS: pc = D + "good_" + CT + ".pem"; pk = D + "good_" + CT + ".key"; break;
     case D_EKU_NOT_TLS: pc = D + "ekucs_" + T + ".pem"; pk = D + "ekucs_" + T + ".key"; break;
     case D_TBS_ALTERED: pc = D + "tbsaltered_" + CT + ".pem"; pk = D + "tbsaltered_" + CT + ".key"; break;
     case D_INT_OK: case D_DEPTH: pc = D + "chain_ica_" + T + ".pem"; pk = D + "via_ica_" + T + ".key"; break;
@@ -66,7 +70,10 @@ static void prop(Tape &t, Ctx &c) {
     c.sample(desc); if (c.verbose) fprintf(stderr, "case: %s\n", desc.c_str());
     // presenter = in-process OpenSSL endpoint (it sends whatever chain it is given, MatrixSSL refuses to present some defective
     // credentials of its own); verifier = MatrixSSL with the good CA as trust anchor
-    KG verifier{ client_verifies ? load("", "", ca) : load(D + "good_" + T + ".pem", D + "good_" + T + ".key", ca) };
+    // "no trust anchors": the application created a key set and loaded nothing into it (nothing can be authenticated against it)
+    bool no_anchors = defect == D_NO_TRUST_ANCHORS || defect == D_SELF_SIGNED_NO_ANCHORS || defect == D_EXPIRED_SELF_SIGNED_NO_ANCHORS;
+    sslKeys_t *bare = nullptr; if (no_anchors && matrixSslNewKeys(&bare, NULL) < 0) throw Discard{};
+    KG verifier{ no_anchors ? bare : client_verifies ? load("", "", ca) : load(D + "good_" + T + ".pem", D + "good_" + T + ".key", ca) };
     if (!verifier.k) { c.count("verifier-keys-refused-at-load"); return; }
     bool defect_present = !(defect == D_NONE || defect == D_INT_OK || defect == D_CRL_OTHER_SERIALS || (defect == D_WRONGNAME && !name_check));
     // CRLs (gen5.sh): the application loads the CA's CRL into the library's CRL cache and authenticates it against the CA, the way
